@@ -547,8 +547,8 @@ func TestCheck(t *testing.T) {
 		return f
 	})
 	r.Main(evid.Meta{
-		Rule:        "grid: ValidSequenceNumber over {0,1,2,2^23-2..2^23+2,2^24-2,2^24-1,...}^2 x time differences around 128 s against RFC 7641 3.4 written out independently. stream: a client connection (datagram and stream, in a synctest bubble) registers 1-3 observations answered with 2.05+Observe / 2.03+Observe / 2.05 without Observe / 4.04 / 5.00 / silence, then receives a generated notification stream (sequence numbers around a base with permutations and duplicates, around 0 / 2^23 / 2^24-1, random, and in a sixth of the cases a backlog of 8-80 older notifications in increasing order behind one that is far ahead; virtual inter-arrival times 0..200 s incl. 127.999/128/128.001 s; own, other and unknown tokens; NON and CON) with Cancel (answered, refused, timed out) at generated positions; oracle: per-observation model of the last delivered (seq, time): every sequenced delivery must be fresher by 3.4; own token only; registration succeeds iff 2.05/2.03; nothing injected after Cancel returned / registration failed is delivered; a notification fresher than everything sent before on a live observation is delivered. Non-trivial = stream with a re-ordering, duplicate, wrap or > 128 s gap; distinct by scenario",
-		Assumptions: []string{"notifications without an Observe option are not constrained by the freshness rule", "block-wise notifications are not generated here (C04 covers block-wise)"},
+		Rule:        "grid: ValidSequenceNumber over {0,1,2,2^23-2..2^23+2,2^24-2,2^24-1,...}^2 x time differences around 128 s against RFC 7641 3.4 written out independently. stream: a client connection (datagram and stream, in a synctest bubble) registers 1-3 observations answered with 2.05+Observe / 2.03+Observe / 2.05 without Observe / 4.04 / 5.00 / silence, then receives a generated notification stream (sequence numbers around a base with permutations and duplicates, around 0 / 2^23 / 2^24-1, random, and in a sixth of the cases a backlog of 8-80 older notifications in increasing order behind one that is far ahead; virtual inter-arrival times 0..200 s incl. 127.999/128/128.001 s; own, other and unknown tokens; NON and CON) with Cancel (answered, refused, timed out) at generated positions; oracle: per-observation model of the last delivered (seq, time): every sequenced delivery must be fresher by 3.4; own token only; registration succeeds iff 2.05/2.03; nothing injected after Cancel returned / registration failed is delivered; a notification fresher than everything sent before on a live observation is delivered. Non-trivial = stream with a re-ordering, duplicate, wrap or > 128 s gap; distinct by scenario. blockwise: observation together with block-wise notification bodies - two library endpoints (pairsim) on an in-memory datagram network with latencies 1-40 ms and per-direction fault tapes (drop, duplicate, hold back, replay), 1-2 observations with 1-5 notifications of 5 bytes to 4 blocks sent 20 ms apart (transfers overlap later notifications, the resource changes during a transfer); the server sends every notification with an Observe option; oracle: every delivery to a callback carries a sequence number and the numbers strictly increase; non-trivial = a notification body of several blocks and at least one notification delivered",
+		Assumptions: []string{"notifications without an Observe option are not constrained by the freshness rule", "the scripted-peer engine generates no block-wise notifications; engine blockwise does, between two library endpoints, and asserts the order of the sequence numbers only (the bodies are C04's subject)"},
 		Floor:       300,
-	}, gridEngine(), eng)
+	}, gridEngine(), eng, pairEngine(t, r))
 }
